@@ -689,7 +689,38 @@ def state_inventory(src: Src) -> list[str]:
             for d in fn.args.defaults + [d for d in fn.args.kw_defaults if d is not None]:
                 if _is_mutable_value(d):
                     shared.append(f"mutable-default {m}.{qual}: {ast.unparse(d)}")
-    return sorted(set(shared)) + ["--"] + sorted(set(sites))
+    # object state written after construction: every attribute / item assignment and deletion outside __init__, and every
+    # caching decorator -- the places where an object (a schema, a maker, a navigator, a sheet, a reader) can come to depend on
+    # what was done with it before
+    writes: list[str] = []
+    for m in MODULES:
+        tree = src.mod(m)
+        for fn, qual in _functions(tree):
+            for dec in fn.decorator_list:
+                if "cache" in ast.unparse(dec):
+                    writes.append(f"cached {m}.{qual}: @{ast.unparse(dec)}")
+            if fn.name in ("__init__", "__post_init__", "__new__"):
+                continue
+            params = {a.arg for a in fn.args.args + fn.args.kwonlyargs}
+            for node in ast.walk(fn):
+                tl: list[ast.AST] = []
+                if isinstance(node, ast.Assign):
+                    tl = list(node.targets)
+                elif isinstance(node, (ast.AugAssign, ast.AnnAssign)):
+                    tl = [node.target]
+                for t in tl:
+                    for tt in (t.elts if isinstance(t, (ast.Tuple, ast.List)) else [t]):
+                        if isinstance(tt, ast.Attribute):
+                            writes.append(f"attr-write {m}.{qual}: {ast.unparse(tt)}")
+                        elif isinstance(tt, ast.Subscript):
+                            base = tt.value
+                            if isinstance(base, ast.Attribute) or (isinstance(base, ast.Name) and base.id in params):
+                                writes.append(f"item-write {m}.{qual}: {ast.unparse(base)}[…]")
+                if isinstance(node, ast.Delete):
+                    for tt in node.targets:
+                        if isinstance(tt, (ast.Attribute, ast.Subscript)):
+                            writes.append(f"delete {m}.{qual}: {ast.unparse(tt)}")
+    return sorted(set(shared)) + ["--"] + sorted(set(sites)) + ["--"] + sorted(set(writes))
 
 
 def _flat_try(stmts: list[ast.stmt]) -> list[ast.stmt]:
